@@ -19,7 +19,8 @@ Print Assumptions C03_predicate.
 (* Every history of Authorize / Login / Callback operations on either router, from the
    empty request store, for every client list, whatever error VALUES the storage returns
    (operations carry storage faults with plain, typed *oidc.Error or redirect-disabled
-   errors; notfound = how an unknown client is reported): each answer is an error page, the login
+   errors; notfound = how an unknown client is reported; requests may carry signed request
+   objects, which both routers verify and merge BEFORE validating the redirect URI): each answer is an error page, the login
    redirect, or a redirect / auto-submitting form whose target is (the canonical
    rendering of) a URI Registered for one of the clients; never a panic. *)
 Theorem C03_no_open_redirect :
@@ -37,15 +38,17 @@ Theorem C03_spec_holds : forall i : input, spec i (model i) = true.
 Proof. exact spec_model. Qed.
 Print Assumptions C03_spec_holds.
 
-(* Missing redirect_uri, a client lookup that fails in any way (storage error of any kind,
-   or client not registered, however the storage reports that), or a URI that matches
-   nothing registered: answered with an error page on both routers, and nothing is stored. *)
+(* A client lookup that fails in any way (storage error of any kind, or client not
+   registered, however the storage reports that), or no URI the request mentions (plain
+   parameter; redirect_uri inside a request object) being present and matching something
+   registered: answered with an error page on both routers, and nothing is stored. *)
 Theorem C03_direct_error :
   forall (glob : string -> string -> gres) (info : string -> uinfo) (reqobj_supported : bool)
          (notfound : errkind) (cs : list client) (r : router) (st : list sreq) (q : areq),
-    q_uri q = "" \/ (exists k, q_fault q = AF_GetClient k) \/ find_client cs (q_client q) = None \/
+    (exists k, q_fault q = AF_GetClient k) \/ find_client cs (q_client q) = None \/
     (exists c, find_client cs (q_client q) = Some c /\
-               matches glob (fun u => u_loop (info u)) c (q_uri q) = false) ->
+               forall u, In u (candidates q) ->
+                 u = "" \/ matches glob (fun u => u_loop (info u)) c u = false) ->
     exists status code, authorize glob info reqobj_supported notfound cs r st q = (st, OPage status code).
 Proof. exact direct_error. Qed.
 Print Assumptions C03_direct_error.
